@@ -69,5 +69,13 @@ func runC08(tier string, seed uint64, o *Out) error {
 			return err
 		}
 	}
+	// SQL level: public API, real goroutines and timers; judged by the quiescent checker
+	nsql := 16
+	if tier == "thorough" {
+		nsql = 160
+	}
+	if err := winSQLCases(o, "C08", rng, nsql, true); err != nil {
+		return err
+	}
 	return nil
 }
